@@ -45,12 +45,21 @@ def w1_cases(ctx):
     return corpus.w1_cases()
 
 
+def w9_cases(ctx, n, n_src=None):
+    out = [{"k": "w9", "seed": ctx.seed, "i": i} for i in range(n)]
+    out += [{"k": "w9src", "seed": ctx.seed, "i": i} for i in range(n_src if n_src is not None else n // 4)]
+    return out
+
+
 def corpus_cases(ctx, v, n_files=0, all_files=False, n_w3=0, w4=True, w1=True, modes=0, w3_size=1.0,
-                 max_file_bytes=None, w4_filter=None):
+                 max_file_bytes=None, w4_filter=None, w1_max_bytes=None):
     """List of case descriptors for interpreter v (deterministic in ctx.seed)."""
     cases = []
     if w1:
-        cases.extend(w1_cases(ctx))
+        for c in w1_cases(ctx):
+            if w1_max_bytes and c["k"] == "file" and os.path.getsize(c["path"]) > w1_max_bytes:
+                continue
+            cases.append(c)
     files = stdlib_files(ctx, v)
     if max_file_bytes:
         files = [f for f in files if f[1] <= max_file_bytes]
